@@ -198,6 +198,22 @@ def rules(ctx, repo, m, meths):
                     if not (isinstance(mdef, ast.Call) and any(
                             unparse(x) == pname + '.pos' for x in mdef.args)):
                         why = 'the match object %s does not come from a match at %s.pos' % (msym, pname)
+                    else:
+                        # the replacement is computed from that very match object (repl(m),
+                        # m.expand(template), re_match_expand(m, template)), not by matching again
+                        rd = repl
+                        d_ = cs.env.get('#def', {}).get(rd.id) if isinstance(rd, ast.Name) else None
+                        if isinstance(d_, ast.AST):
+                            rd = d_
+                        direct = isinstance(rd, ast.Call) and (
+                            any(isinstance(x, ast.Name) and x.id == msym for x in rd.args) or
+                            (call_recv(rd) is not None and unparse(call_recv(rd)) == msym))
+                        again = isinstance(rd, ast.Call) and call_name(rd) in ('sub', 'subn', 'match', 'search')
+                        if again or not direct:
+                            why = ('the replacement text is %s, not computed from the match object %s '
+                                   'itself: matching the matched text again loses the surrounding '
+                                   'context (look-behind, look-ahead, \\b), the rule consumes its '
+                                   'characters but emits something else' % (short(rd, 70), msym))
             else:
                 di = symex.item_def(unparse(consumed), cs.env) if isinstance(consumed, ast.Name) else None
                 dr = symex.item_def(unparse(repl), cs.env) if isinstance(repl, ast.Name) else None
